@@ -1112,6 +1112,55 @@ def switch_edges(fn, bi):
     return d
 
 
+def order_test(fn, R, bi):
+    """switch block testing an order relation: returns (a, op, b, true succ, false succ) with op in Lt|Le|Gt|Ge for
+    both `a < b` binops and PartialOrd::lt(a, b) style calls (None otherwise)"""
+    t = fn.blocks[bi]["term"]
+    if t["k"] != "switch":
+        return None
+    dl = op_place(t["discr"])
+    if dl is None:
+        return None
+    d = strip(R.place(dl))
+    e = switch_edges(fn, bi)
+    tr, fa = e.get("1", e["otherwise"]), e.get("0")
+    if fa is None:
+        return None
+    if d[0] == "binop" and d[1] in ("Lt", "Le", "Gt", "Ge"):
+        return d[2], d[1], d[3], tr, fa
+    if d[0] == "call" and d[1].rsplit("::", 1)[-1] in ("lt", "le", "gt", "ge") and len(d[2]) >= 2:
+        return d[2][0], d[1].rsplit("::", 1)[-1].capitalize(), d[2][1], tr, fa
+    return None
+
+
+def succ_when_at_least(test, is_value, bound):
+    """for an order_test result comparing a value (selected by is_value) with the constant `bound` or `bound - 1`:
+    the successor taken when value >= bound (None when the test has another shape)"""
+    a, op, b, tr, fa = test
+    ka, kb = _tree_const(a), _tree_const(b)
+    if kb is not None and is_value(a):
+        k = kb
+        if op == "Ge" and k == bound:
+            return tr
+        if op == "Lt" and k == bound:
+            return fa
+        if op == "Gt" and k == bound - 1:
+            return tr
+        if op == "Le" and k == bound - 1:
+            return fa
+    if ka is not None and is_value(b):
+        k = ka
+        if op == "Le" and k == bound:       # bound <= v
+            return tr
+        if op == "Gt" and k == bound:       # bound > v
+            return fa
+        if op == "Lt" and k == bound - 1:   # bound-1 < v
+            return tr
+        if op == "Ge" and k == bound - 1:   # bound-1 >= v
+            return fa
+    return None
+
+
 def int_test_edges(fn, R, bi):
     """for a switch block: (tested value tree, {constant: successor taken when value == constant}, successors taken
     otherwise).  Unifies `if x == k` / `if x != k` (a bool switch on a comparison) with `match x { k => .., _ => .. }`
@@ -1173,7 +1222,57 @@ def branch_of_call(fn, bi):
                 continue
             e = switch_edges(fn, sw)
             return (sw, e.get("0"), e.get("1", e["otherwise"]))
+    # the same propagation spelled `match r { Ok(v) => .., Err(e) => .. }` / `if let Err(e) = r { return .. }`
+    if "Result<" in fn.local_ty(dest["local"]):
+        for sb in sorted(fn.cfg()):
+            tt = fn.blocks[sb]["term"]
+            if tt["k"] != "switch":
+                continue
+            p = op_place(tt["discr"])
+            ds = fn.whole_defs(p["local"]) if p is not None and not p["proj"] else []
+            if len(ds) == 1 and ds[0][0] == "stmt" and ds[0][1]["k"] == "discr" and not ds[0][1]["place"]["proj"] and ds[0][1]["place"]["local"] in locs \
+                    and "Result<" in fn.local_ty(ds[0][1]["place"]["local"]) and fn.dominates(bi, sb):
+                e = switch_edges(fn, sb)
+                ok, err = e.get("0", e["otherwise"]), e.get("1", e["otherwise"])
+                if ok != err:
+                    return (sb, ok, err)
     return None
+
+
+def ok_edges_of_call(fn, bi):
+    """edges taken exactly when the Result produced by call block bi is Ok: the Continue edge of a following `?`
+    (through converters) and the Ok edge of every `match` / `if let` on its discriminant.  list of (block, succ)"""
+    out = []
+    br = branch_of_call(fn, bi)
+    if br is not None and br[1] is not None:
+        out.append((br[0], br[1]))
+    t = fn.blocks[bi]["term"]
+    if t["k"] != "call" or t["dest"]["proj"]:
+        return out
+    locs, _ = flows(fn, t["dest"]["local"])
+    for sb in fn.cfg():
+        tt = fn.blocks[sb]["term"]
+        if tt["k"] != "switch":
+            continue
+        p = op_place(tt["discr"])
+        ds = fn.whole_defs(p["local"]) if p is not None and not p["proj"] else []
+        if len(ds) == 1 and ds[0][0] == "stmt" and ds[0][1]["k"] == "discr" and not ds[0][1]["place"]["proj"] and ds[0][1]["place"]["local"] in locs \
+                and "Result<" in fn.local_ty(ds[0][1]["place"]["local"]):
+            e = switch_edges(fn, sb)
+            ok = e.get("0", e["otherwise"])
+            if ok != e.get("1", e["otherwise"]) and (sb, ok) not in out:
+                out.append((sb, ok))
+    return out
+
+
+def gated_by_ok(fn, call_block, targets):
+    """the target blocks are reachable only when the Result of the call was Ok"""
+    edges = ok_edges_of_call(fn, call_block)
+    if not edges or not fn.dominates(call_block, targets[0] if targets else call_block):
+        return False
+    g = cfg_without_edges(fn, edges)
+    r = reach(g, [0])
+    return bool(targets) and all(b not in r for b in targets)
 
 
 def option_tests(fn, R, pred):
